@@ -204,6 +204,8 @@ def floors(tier):
     cells = [('mode-route', r, o, rt) for r in G.ROUNDINGS for o in G.OVERFLOWS for rt in ('constructor', 'call', 'set_val', 'setitem')]
     cells += [('family', f) for f in ('pyint', 'pyfloat', 'str', 'npf', 'npi', 'npu', 'arrf', 'arri', 'arru', 'list', 'tuple', 'pycomplex')]
     cells += [('noncontiguous_carrier', c) for c in ('1d', '2d', 'bigfloat2d')]
+    if np.finfo(np.longdouble).nmant > 52:
+        cells += [('extended_precision_containers',)]
     return cells
 
 
@@ -314,6 +316,23 @@ def run_case(case, ctx):
                     # the same array in another memory layout (Fortran order, negative stride, strided view)
                     _store_all_routes(Fxp, G.noncontig(car, rng), G.container_shape(cont, len(ok)), s, w, nf, r, o, routes=('constructor', 'set_val', 'setitem'))
                     ctx.floor_hit(('noncontiguous_carrier', cont))
+        # extended-precision inputs (where longdouble is wider than a double): values of up to 63 significant bits next to codes and ties, as scalars,
+        # arrays, lists and tuples of longdouble numbers - the configured rounding has to see all of their bits
+        L = np.longdouble
+        if np.finfo(L).nmant > 52 and (i // 10) % 2 == 0:
+            lo_, hi_ = R.code_range(s, w)
+            kk = rng.randint(lo_, hi_)
+            base = L(kk) / L(2) ** nf
+            eps = L(2) ** (-nf - rng.choice([8, 9, 10]))
+            half = L(0.5) / L(2) ** nf
+            ext = [base + eps, base - eps, base + half + eps, base + half - eps]
+            if all(np.isfinite(v) and abs(v) < L(2) ** 53 for v in ext):
+                _store_all_routes(Fxp, list(ext), (4,), s, w, nf, r, o)
+                _store_all_routes(Fxp, tuple(ext[:2]), (2,), s, w, nf, r, o, routes=('constructor', 'set_val', 'call'))
+                _store_all_routes(Fxp, [list(ext[:2]), list(ext[2:])], (2, 2), s, w, nf, r, o, routes=('constructor', 'set_val'))
+                _store_all_routes(Fxp, np.array(ext, dtype=L), (4,), s, w, nf, r, o, routes=('constructor', 'setitem'))
+                _store_all_routes(Fxp, ext[rng.randint(0, 3)], (), s, w, nf, r, o, routes=('constructor', 'call'))
+                ctx.floor_hit(('extended_precision_containers',))
     elif k == 'bigfloat':
         s, w, nf = G.core_format(rng)
         nf = abs(nf) % (w + 9)
